@@ -303,7 +303,7 @@ fn run_worker(id: &str, oracle_id: &str, seed: u64, worker: u64, cases: u32, sto
             if counting.get() {
                 // keep the failing case before anything else runs: if the tested code has corrupted this process (a use-after-free
                 // in the library is a plausible way to break a property) the shrinking runs below may never finish
-                let dir = verif_dir().join("pending").join(&prof_id);
+                let dir = verif_dir().join("pending").join(&id_owned);
                 let _ = std::fs::create_dir_all(&dir);
                 let rf = ReplayFile { property: v.prop.clone(), clause: v.clause.clone(), detail: v.detail.clone(), signature: signature(&case, v), case: case.clone(), trace: out.trace.clone(), seed, program: case.pretty() };
                 let _ = std::fs::write(dir.join(format!("unshrunk-{}.json", worker)), serde_json::to_string(&rf).unwrap_or_default());
@@ -568,6 +568,11 @@ fn cmd_replay(path: &str, quiet: bool) -> i32 {
 
 fn cmd_check(id: &str, tier: &str, cases_override: Option<u32>, workers: usize, strict_harness: bool, oracle_id: Option<String>) -> i32 {
     let oracle_id = oracle_id.unwrap_or_else(|| id.to_string());
+    // cross-profile run (the cases of one property's profile judged by another property's oracle): findings belong to the oracle's
+    // property; the evidence file of the profile's own property is left alone
+    let cross = oracle_id != id;
+    let rid: String = oracle_id.clone();
+    let rid = rid.as_str();
     let t0 = Instant::now();
     let seed: u64 = std::env::var("VERIF_SEED").ok().and_then(|s| s.parse::<i64>().ok()).map(|v| v as u64).unwrap_or(0);
     let home = verif_dir();
@@ -576,8 +581,8 @@ fn cmd_check(id: &str, tier: &str, cases_override: Option<u32>, workers: usize, 
     let mut violation_line: Option<String> = None;
     // 1. replay corpus
     let mut replayed = 0;
-    let rdir = home.join("replays").join(id);
-    if let Ok(rd) = std::fs::read_dir(&rdir) {
+    let rdir = home.join("replays").join(rid);
+    if let Ok(rd) = std::fs::read_dir(&rdir).and_then(|rd| if cross { Err(std::io::Error::new(std::io::ErrorKind::Other, "corpus is replayed by the property's own run")) } else { Ok(rd) }) {
         let mut files: Vec<_> = rd.filter_map(|e| e.ok()).map(|e| e.path()).filter(|p| p.extension().map(|x| x == "json").unwrap_or(false)).collect();
         files.sort();
         for f in files {
@@ -600,7 +605,7 @@ fn cmd_check(id: &str, tier: &str, cases_override: Option<u32>, workers: usize, 
         }
     }
     // 2. generated search
-    let pending = home.join("pending").join(id);
+    let pending = home.join("pending").join(rid);
     let _ = std::fs::remove_dir_all(&pending);
     let cases = cases_override.unwrap_or(match tier {
         "thorough" => 1_500_000,
@@ -670,11 +675,11 @@ fn cmd_check(id: &str, tier: &str, cases_override: Option<u32>, workers: usize, 
             let (case, out) = if violations_for(&out_small, &oracle_id).first().is_some() { (small, out_small) } else { (case, out) };
             let v = violations_for(&out, &oracle_id).first().cloned().cloned().unwrap();
             let v = &v;
-            let path = write_replay(id, &case, &out, v, seed, &rdir);
+            let path = write_replay(rid, &case, &out, v, seed, &rdir);
             println!("--- shrunk failing case for {} ---", id);
             print_outcome(&case, &out);
             if violation_line.is_none() {
-                violation_line = Some(format!("VIOLATION property={} replay={}", id, path.display()));
+                violation_line = Some(format!("VIOLATION property={} replay={}", rid, path.display()));
             }
         } else {
             println!("note: a worker reported {} but the shrunk case did not reproduce it (non-determinism in the harness?)", f.reason);
@@ -725,7 +730,13 @@ fn cmd_check(id: &str, tier: &str, cases_override: Option<u32>, workers: usize, 
     });
     let edir = home.join("evidence");
     let _ = std::fs::create_dir_all(&edir);
-    std::fs::write(edir.join(format!("{}.json", id)), serde_json::to_string_pretty(&evidence).unwrap()).expect("write evidence");
+    if !cross {
+        std::fs::write(edir.join(format!("{}.json", id)), serde_json::to_string_pretty(&evidence).unwrap()).expect("write evidence");
+    } else {
+        // (merged into the oracle property's evidence file by ./check)
+        let _ = std::fs::create_dir_all(home.join("pending"));
+        std::fs::write(home.join("pending").join(format!("cross-{}-{}.json", rid, id)), serde_json::to_string_pretty(&evidence).unwrap()).expect("write cross evidence");
+    }
     println!(
         "{} {}: {} cases, {} distinct non-trivial, {} step-bound, {} harness-unexplained, {} ambiguous, {} pool-exhausted, other oracles {:?}, {:.1}s ({} exec/s)",
         id,
@@ -757,6 +768,8 @@ fn cmd_check(id: &str, tier: &str, cases_override: Option<u32>, workers: usize, 
 /// Runs the search in a child process. The tested library runs in-process with the harness, and a change to it that
 /// corrupts memory (a realistic way of breaking a property) can take the whole process down: the verdict must survive that.
 fn supervise_check(id: &str, args: &[String]) -> i32 {
+    // (a cross-profile run reports under the oracle's property)
+    let id = args.iter().position(|a| a == "--oracle").and_then(|i| args.get(i + 1)).map(|s| s.as_str()).unwrap_or(id);
     let exe = std::env::current_exe().expect("current_exe");
     let status = std::process::Command::new(&exe).args(&args[1..]).arg("--in-process").status();
     let status = match status {
